@@ -160,6 +160,36 @@ def gen_wide(rng, nmax, dup):
     return pts, ("wide_dup" if dup else "wide")
 
 
+def gen_ultrawide(rng, nmax):
+    """a small integer cluster plus outliers at 2^e, e up to 600: distance ratios far above 1.3^188 (the physical
+    size of the 101-slot cover_sets array).  The distances go to the harness as hex floats (every one is exactly
+    representable: the far distances are the powers of two themselves, |2^e - x| rounds to 2^e and the table stays a
+    metric); the model gets the same table with the distinct values replaced by their ranks (is_knn only compares)."""
+    n = rng.randint(3, min(nmax, 10))
+    pts = [rng.randint(0, 6) for _ in range(n)]
+    exps = sorted(rng.sample(range(60, 600), rng.randint(1, 3)))
+    far = {}
+    for e in exps:
+        far[rng.randrange(n)] = e
+    def dist(i, j):
+        if i == j:
+            return 0.0
+        ei, ej = far.get(i), far.get(j)
+        if ei is None and ej is None:
+            return float(abs(pts[i] - pts[j]))
+        if ei is not None and ej is not None and ei == ej:
+            return 0.0
+        return float(2 ** max(ei or 0, ej or 0))
+    F = [[dist(i, j) for j in range(n)] for i in range(n)]
+    vals = sorted({v for row in F for v in row})
+    rank = {v: i for i, v in enumerate(vals)}
+    c = {"gen": "ultrawide", "kind": "D", "N": n, "tseed": rng.randrange(1 << 30), "structural": False,
+         "order_only": True, "M": [[rank[v] for v in row] for row in F],
+         "Mhex": [[v.hex() for v in row] for row in F]}
+    c["ks"] = pick_ks(rng, n, c["M"], True)
+    return c
+
+
 def pick_ks(rng, n, D, full):
     if n - 1 <= 0:
         return []
@@ -231,7 +261,7 @@ def gen_case(rng, nmax, which=None):
 def model_table(c):
     """(table for the extracted model, exact?)  exact = the table holds the true distances (not only their order)"""
     if c["kind"] == "D":
-        return c["M"], True
+        return c["M"], not c.get("order_only", False)
     X = c["X"]
     D2 = [[sum((a - b) ** 2 for a, b in zip(p, q)) for q in X] for p in X]
     R = [[isqrt_exact(v) for v in row] for row in D2]
@@ -263,7 +293,7 @@ def is_metric(D):
 def case_text(c, cmds):
     n = c["N"]
     if c["kind"] == "D":
-        t = ["CASE %d D" % n] + [" ".join(str(v) for v in row) for row in c["M"]]
+        t = ["CASE %d D" % n] + [" ".join(str(v) for v in row) for row in (c.get("Mhex") or c["M"])]
     else:
         dim = len(c["X"][0]) if c["X"] else 0
         t = ["CASE %d K %d" % (n, dim)] + [" ".join(str(v) for v in row) for row in c["X"]]
@@ -444,6 +474,12 @@ def dyn_signature(c, method, why=""):
     coincident samples; F26 every sample coincident (signed overflow of max_scale - 1)"""
     if method != "C" or c["kind"] != "D":
         return None
+    if c.get("Mhex"):
+        fv = [float.fromhex(v) for row in c["Mhex"] for v in row]
+        pos = [v for v in fv if v > 0]
+        if pos and max(pos) / min(pos) >= 1.3 ** 186 and "aborts" in why:
+            return "F27-covertree-cover-sets-size"
+        return None
     vals = [v for row in c["M"] for v in row if v > 0]
     if not vals:
         return "F26-covertree-all-coincident-overflow" if "signed integer overflow" in why else None
@@ -458,6 +494,8 @@ def sub_case(c, idx):
     d["N"] = len(idx)
     if c["kind"] == "D":
         d["M"] = [[c["M"][i][j] for j in idx] for i in idx]
+        if c.get("Mhex"):
+            d["Mhex"] = [[c["Mhex"][i][j] for j in idx] for i in idx]
     else:
         d["X"] = [c["X"][i] for i in idx]
     return d
@@ -514,6 +552,9 @@ def report_violation(ctx, exe, mexe, c, method, k, why):
     why2 = fails_spec(ctx, exe, mexe, small, method, k) or why
     rep = {"gen": c["gen"], "kind": c["kind"], "N": small["N"], "method": method, "k": k}
     rep["M" if c["kind"] == "D" else "X"] = small["M"] if c["kind"] == "D" else small["X"]
+    if small.get("Mhex"):
+        rep["Mhex"] = small["Mhex"]
+        rep["order_only"] = True
     ctx.violation(rep, why2, signature=dyn_signature(small, method, why2))
 
 
@@ -744,6 +785,8 @@ def corpus_case(cj):
          "structural": True}
     if cj["kind"] == "D":
         c["M"] = cj["M"]
+        if cj.get("Mhex"):
+            c["Mhex"], c["order_only"], c["structural"] = cj["Mhex"], True, False
     else:
         c["X"] = cj["X"]
     n = c["N"]
@@ -803,6 +846,8 @@ def run(ctx):
     for _ in range(ngen):
         big = rng.random() < 0.15
         cases.append(gen_case(rng, nmax if big else rng.choice([5, 8, 12, 16, 24, 36])))
+    for _ in range(25 if quick else 300):
+        cases.append(gen_ultrawide(rng, 10))
     # scatter stream: small random point sets on coarse 1-D / 2-D integer lattices, every k, find_neighbors +
     # is_knn_b only (the geometry where a too small pruning radius of the cover tree shows, about 1 case in 8000)
     for _ in range(1200 if quick else 40000):
@@ -834,7 +879,7 @@ def run(ctx):
         tie_stats(c, stats)
         if c["N"] <= 60 and not c["gen"].startswith("corpus"):
             T, exact = model_table(c)
-            if exact and not is_metric(T):
+            if exact and not c.get("order_only") and not is_metric(T):
                 raise vlib.BuildError("generator bug: non-metric table from " + c["gen"])
     n = 0
     small = [c for c in cases if c["N"] <= 150]
@@ -881,6 +926,8 @@ def replay(ctx, case):
     c = {"gen": case.get("gen", "replay"), "kind": case["kind"], "N": case["N"]}
     if c["kind"] == "D":
         c["M"] = case["M"]
+        if case.get("Mhex"):
+            c["Mhex"], c["order_only"] = case["Mhex"], True
     else:
         c["X"] = case["X"]
     ks = [case["k"]] if "k" in case else case.get("ks", [])
